@@ -130,6 +130,20 @@ func cmdC11(seed uint64, tier, outdir string) {
 		n = 700
 	}
 	ins := baseInputs(r, n)
+	// version numbers followed by extra full stops ("Version 2.0.. (the")
+	for _, in := range ins[:len(ins)/3] {
+		ws := strings.Split(string(in.data), " ")
+		changed := false
+		for i, w := range ws {
+			if len(w) > 1 && w[0] >= '0' && w[0] <= '9' && strings.ContainsAny(w, ".") && !strings.Contains(w, "\n") && r.chance(1, 2) {
+				ws[i] = strings.TrimRight(w, ".,;") + []string{"..", "...", ".,."}[r.intn(3)]
+				changed = true
+			}
+		}
+		if changed {
+			ins = append(ins, input{"extra-dots:" + in.name, []byte(strings.Join(ws, " "))})
+		}
+	}
 	nLicenseBearing := len(ins)
 	for i := 0; i < n/2; i++ {
 		ins = append(ins, input{fmt.Sprintf("synth/%d", i), synthText(r, 5+r.intn(60))})
